@@ -120,17 +120,26 @@ Definition s2_unparsed_intact (argv : list string) (o : gobs) : bool :=
 (** S3. Placement equivalence.  [flags] are the flag spellings the option uses
     (one, or the members of a cluster).  The option is *shadowed* at [j] when
     the task whose argument list contains position [j] declares one of them. *)
-Fixpoint active_task (groups : list (list string)) (j : nat) (cur : option ctxspec)
+(** [starts]: which groups are task names (a single-token group may also be a
+    positional VALUE that happens to equal a task name) *)
+Variable starts : list nat.
+
+Fixpoint active_from (i : nat) (groups : list (list string)) (j : nat) (cur : option ctxspec)
   : option ctxspec :=
   match j, groups with
   | S j', g :: l =>
       let cur' := match g with
-                  | [t] => match task_named cs t with Some c => Some c | None => cur end
+                  | [t] => if existsb (Nat.eqb i) starts
+                           then match task_named cs t with Some c => Some c | None => cur end
+                           else cur
                   | _ => cur
                   end in
-      active_task l j' cur'
+      active_from (S i) l j' cur'
   | _, _ => cur
   end.
+
+Definition active_task (groups : list (list string)) (j : nat) (cur : option ctxspec)
+  : option ctxspec := active_from 0 groups j cur.
 
 Definition shadowed (groups : list (list string)) (j : nat) (flags : list string) : bool :=
   match active_task groups j None with
